@@ -77,7 +77,7 @@ PROPS = {
                          'rowan GreenNodeBuilder modelled as a rose-tree builder; oq3_lexer::unescape not modelled (its diagnostics are ignored in the comparison)',
                          'hook: parser stuck detector (verif_tick) turns a hang of the implementation into a panic'],
         'assumptions': ['inputs shorter than 2^32 bytes; nesting depth within the process stack (measured: > 5000 levels on 8 MiB); the parser step limit (15e6 look-aheads without progress) is not modelled'],
-        'partial': ['that the validation pass (validation.rs unwraps on LITERAL / TIMING_LITERAL nodes of the finished tree) never panics is not proved; only exercised by the bounded-exhaustive correspondence and the implementation oracle'],
+        'partial': ['that the validation pass (validation.rs: three unwraps and one unreachable on LITERAL / TIMING_LITERAL nodes of the finished tree, modelled as panic codes 20-23; the unescaper is not modelled) never panics is not proved; only exercised by the bounded-exhaustive correspondence and the implementation oracle'],
     },
     'C02': {
         'coq': 'Props/C02.v',
@@ -108,6 +108,10 @@ PROPS = {
              'args': {'quick': ['--corpus', 1, '--mutants', 1000, '--templates', 1500, '--random', 2500],
                       'thorough': ['--corpus', 1, '--mutants', 30000, '--templates', 50000, '--random', 80000]},
              'shards': {'quick': 16, 'thorough': 16}, 'driver_args': []},
+            {'name': 'nopanic', 'args': {'quick': ['--templates', 1, '--programs', 1000, '--mutants', 30000], 'thorough': ['--templates', 1, '--programs', 20000, '--mutants', 600000]},
+             'shards': {'quick': 16, 'thorough': 16}, 'driver_args': ['--nodedupe'], 'max_skip': 0.97},
+            {'name': 'inc', 'args': {'quick': ['--random', 1600], 'thorough': ['--random', 60000]},
+             'shards': {'quick': 16, 'thorough': 16}, 'driver_args': []},
         ],
         'exhaustive': {'quick': False, 'thorough': False},
         'rule': 'generated well-formed lexeme sequences with one malformed lexeme (21 kinds: unterminated strings/bit strings/block comments, '
@@ -115,7 +119,7 @@ PROPS = {
                 'requires a lexical diagnostic on the token containing the lexeme; text-level family checks parse_check_lex has a tree iff '
                 'no lexical diagnostic and that both entry points agree on clean input',
         'trusted_base': ['as C14; Model/Builder.v parse_check_lex'],
-        'assumptions': ['gating of semantic analysis is decided by the analyser checks (C03), not here'],
+        'assumptions': ['gating of semantic analysis: oracle only (nopanic family on inputs with syntax diagnostics; inc family with a broken included file at any depth)'],
         'partial': ['class lemmas proved for 3 of 6 malformed classes; the others by correspondence/oracle only'],
     },
     'C15': {
@@ -142,6 +146,10 @@ PROPS = {
              'args': {'quick': ['--corpus', 1, '--mutants', 2500, '--lexemes', 1500, '--templates', 3000, '--random', 3000, '--escapes', 4000, '--unknown', 4000],
                       'thorough': ['--corpus', 1, '--mutants', 60000, '--lexemes', 30000, '--templates', 100000, '--random', 80000, '--escapes', 100000, '--unknown', 100000]},
              'shards': {'quick': 16, 'thorough': 16}, 'driver_args': []},
+            {'name': 'meta', 'args': {'quick': ['--random', 2000, '--semranges', 6000], 'thorough': ['--random', 100000, '--semranges', 300000]},
+             'shards': {'quick': 16, 'thorough': 16}, 'driver_args': ['--nodedupe']},
+            {'name': 'inc', 'args': {'quick': ['--random', 1600], 'thorough': ['--random', 60000]},
+             'shards': {'quick': 16, 'thorough': 16}, 'driver_args': []},
         ],
         'exhaustive': {'quick': False, 'thorough': False},
         'rule': 'text-level pipeline on corpus snippets, token mutants, lexeme sequences (incl. non-ASCII identifiers and strings), templates '
@@ -149,7 +157,7 @@ PROPS = {
                 'timing-literal validation range; the oracle slices the text by every reported range (bounds, char boundaries) and requires a '
                 'diagnostic whenever the tree has an ERROR node or token',
         'trusted_base': ['as C01/C02'],
-        'assumptions': ['semantic diagnostic spans are checked by the sema families of C03/C13 (range = node range of the file that holds them)'],
+        'assumptions': ['semantic diagnostic spans: oracle only (meta --semranges and the generated programs of meta; inc for diagnostics of included files: range = node range of the file that holds them)'],
         'partial': ['error-node => diagnostic and semantic spans: oracle only; escape validation offsets come from the unmodelled unescape module'],
     },
     'C08': {
